@@ -217,6 +217,30 @@ def closure_const_result(F, cb):
             return ("some", const_int(k) & 0xFF)
         if re.search(r"\[0\]$", cb.oname(o, 4)):
             return ("some-first-byte",)
+        # the byte looked up in a table of (letter, byte) pairs kept in data, itself when it is not there:
+        # TABLE.iter().find(|(l, _)| *l == c[0]).map_or(c[0], |&(_, b)| b)
+        tl = lib.table_lookups(F, cb)
+        d = cb.def_rv(o)
+        if len(tl) == 1 and d and d[2] == "call" and (d[3]["f"].get("fn") or "").endswith("Option::<T>::map_or") and len(d[3]["args"]) == 3:
+            lk = tl[0]
+            from_lookup = lib.switch_on_operand(cb, d[3]["args"][0], lk["call"].dest["l"])
+            dflt_first = re.search(r"\[0\]$", cb.oname(d[3]["args"][1], 4)) is not None
+            keyed_first = lk["key_operand"] is not None and re.search(r"\[0\]$|^\W*\w+$", cb.oname(lk["key_operand"], 4)) is not None
+            c2 = cb.def_rv(d[3]["args"][2])
+            j = None
+            if c2 and c2[2] == "rv" and c2[3]["k"] == "agg" and c2[3]["kind"].get("a") == "closure":
+                b2 = F.bodies.get(c2[3]["kind"]["def"])
+                if b2 is not None:
+                    for bi, si, st_ in b2.stmts():
+                        if "lhs" in st_ and st_["lhs"]["l"] == 0 and not st_["lhs"]["p"] and st_["rv"]["k"] == "use":
+                            q = op_place(st_["rv"]["o"])
+                            rp = b2.root_place(q, through_names=True) if q is not None else None
+                            if rp is not None and rp["l"] == b2.argc:
+                                fl = [e["f"] for e in rp["p"] if isinstance(e, dict) and "f" in e]
+                                if len(fl) == 1:
+                                    j = fl[0]
+            if from_lookup and dflt_first and keyed_first and j is not None and all(r[lk["key_field"]][0] == "int" and r[j][0] == "int" for r in lk["rows"]):
+                return ("table", {r[lk["key_field"]][1] & 0xFF: r[j][1] & 0xFF for r in lk["rows"]})
         return None
     if len(nones) == 1 and not somes:
         return ("none",)
@@ -362,6 +386,8 @@ def check_strings(ctx, F, rule="R-TABLE", cr_required=False):
                     return res
                 continue
             if key[0] == "take" and key[1] == 1:
+                if res[0] == "table":
+                    return ("some", res[1].get(x, x))
                 return ("some", x) if res == ("some-first-byte",) else res
             return ("unknown",)
         return ("reject",)
@@ -606,6 +632,11 @@ def check_iso_tables(ctx, F, rule="R-TABLE"):
             has_eol = True
         if key == ("take", 1) and res == ("some-first-byte",):
             has_ident = True
+        if key == ("take", 1) and res and res[0] == "table":
+            # letters looked up in a table kept in data, every other byte standing for itself
+            has_ident = True
+            for k_, v_ in res[1].items():
+                got.setdefault(k_, v_)
     ctx.ob(rule, "iso|string-escapes", got == ISO_ESC and has_oct and has_eol and has_ident,
            "escapes %s + octal + line continuation + identity" % {chr(k): "%02X" % v for k, v in got.items()}, eb.where(),
            what="the literal-string escape table %s (octal %s, line continuation %s, identity %s) differs from ISO 32000-1 Table 3" % ({chr(k): "%02X" % v for k, v in got.items()}, has_oct, has_eol, has_ident))
